@@ -36,6 +36,31 @@ func (*renderer).Render$2
   requires n != nil && *r != nil
   ensures [skip] old(kindOf(n) < 0 || kindOf(n) >= len(rfuncs(r)) || rfuncs(r)[kindOf(n)] == nil) ==> (result0 == ast.WalkContinue && result1 == nil)
 
+// ---- registration order (C20): node renderers register from the largest priority value down, so for a kind that
+// several of them claim the one with the smallest priority value registers last and wins ----
+ghost var regN() int                  // number of RegisterFuncs calls made so far
+ghost var regPrio(t int) int          // priority of the renderer whose RegisterFuncs was the t-th call
+ghost var optState() int
+// assumed of every NodeRenderer / SetOptioner: they talk to the registerer (Register) and to their own configuration
+// only; in particular they leave the renderer's list of node renderers alone
+iface renderer.NodeRenderer.RegisterFuncs
+  modifies ifptr(arg0, "*renderer").maxKind, mapcontents(ifptr(arg0, "*renderer").nodeRendererFuncsTmp)
+iface renderer.SetOptioner.SetOption
+  modifies optState
+macro nrs(r) = (*r).config.NodeRenderers
+func (*renderer).Render$1
+  requires *r != nil && (*r).config != nil && regN() >= 0
+  callupdate renderer.NodeRenderer.RegisterFuncs#1: regPrio(t) = (t == regN() ? v.Priority : regPrio(t))
+  callupdate renderer.NodeRenderer.RegisterFuncs#1: regN() = regN() + 1
+  ensures [all] regN() == old(regN()) + old(len(nrs(r)))
+  ensures [descending] forall s int, t int {regPrio(s), regPrio(t)} :: (old(regN()) <= s && s < t && t < regN()) ==> regPrio(s) >= regPrio(t)
+  ensures [kept] forall t int {regPrio(t)} :: (0 <= t && t < old(regN())) ==> regPrio(t) == old(regPrio(t))
+  loop 0 inv *r != nil && (*r).config != nil && (*r).config == old((*r).config) && l == len(nrs(r)) && -1 <= i && i < l && regN() == old(regN()) + (l - 1 - i)
+  loop 0 inv [sorted] forall a int, b int {nrs(r)[a], nrs(r)[b]} :: (0 <= a && a < b && b < len(nrs(r))) ==> nrs(r)[a].Priority <= nrs(r)[b].Priority
+  loop 0 inv [visited] forall t int {regPrio(t)} :: (old(regN()) <= t && t < regN()) ==> regPrio(t) == nrs(r)[l - 1 - (t - old(regN()))].Priority
+  loop 0 inv [kept] forall t int {regPrio(t)} :: (0 <= t && t < old(regN())) ==> regPrio(t) == old(regPrio(t))
+  loop 1 inv *r != nil && (*r).config != nil && (*r).config == old((*r).config)
+
 // Register (only meaningful before the first Render, while the temporary table exists)
 func (*renderer).Register
   requires r.nodeRendererFuncsTmp != nil
